@@ -8,7 +8,7 @@
   * the compression decision table of `to_json` / `from_json` as pure functions of
     (file name, is it a `str` or a path object, `compress` keyword), the file system being an abstract
     map name ↦ (format, text) — gzip / bz2 / open are byte round-trip contracts;
-  * `copy` in an allocation-id model.
+  * `copy` in an allocation-id model (as fixed: lists are rebuilt, nothing is shared).
   Core Lean only; exact.
 -/
 import MellonModel.Serial
@@ -372,31 +372,26 @@ end
 
 mutual
 /-- What `deserialize(make_serializable(x))` allocates (`n` = next free id): arrays come back as
-    new (immutable) JAX arrays, dicts and sets are rebuilt, every other object — lists in particular —
-    is passed through both functions and comes back as THE SAME object. -/
+    new (immutable) JAX arrays; dicts, sets and — as fixed — lists are rebuilt element-wise, so every
+    mutable container of the result is a new object. -/
 def LVal.copy : LVal → Nat → LVal × Nat
   | .atom v, n => (.atom (PyVal.normF id v), n)
   | .nparr _ dt sh d, n => (.atom (.arr dt sh d), n)
   | .dict _ kvs, n => let (kvs', n') := LVal.copyK kvs (n + 1); (.dict n kvs', n')
   | .set _ xs, n => (.set n (dedupPy (PyVal.normFL id xs)), n + 1)
-  | .list i xs, n => (.list i xs, n)
+  | .list _ xs, n => let (xs', n') := LVal.copyL xs (n + 1); (.list n xs', n')
+def LVal.copyL : List LVal → Nat → List LVal × Nat
+  | [], n => ([], n)
+  | v :: r, n =>
+    let (v', n1) := LVal.copy v n
+    let (r', n2) := LVal.copyL r n1
+    (v' :: r', n2)
 def LVal.copyK : List (String × LVal) → Nat → List (String × LVal) × Nat
   | [], n => ([], n)
   | (k, v) :: r, n =>
     let (v', n1) := LVal.copy v n
     let (r', n2) := LVal.copyK r n1
     ((k, v') :: r', n2)
-end
-
-mutual
-/-- No list object is reachable (through dicts) from the value. -/
-def LVal.noList : LVal → Bool
-  | .list _ _ => false
-  | .dict _ kvs => LVal.noListK kvs
-  | _ => true
-def LVal.noListK : List (String × LVal) → Bool
-  | [] => true
-  | (_, v) :: r => LVal.noList v && LVal.noListK r
 end
 
 /-- All attribute values of a predictor and of the nodes of its kernel (the objects `copy` has to
